@@ -443,6 +443,47 @@ func buildIntrinsics() map[string]intrinsic {
 		return math.Float64frombits(t.Val)
 	}
 
+	// ---- protoreflect.Value (unsafe representation): string and bytes payloads only ----
+	// layout: {DoNotCompare [0]func(), typ unsafe.Pointer, ptr unsafe.Pointer, num uint64}; the engine
+	// keeps a tag string in typ and the payload in ptr.
+	pv := func(e *Engine, tag string, payload value) value {
+		return structure{array{}, unsafePtr{v: tag}, unsafePtr{v: payload}, e.ts.Const(64, 0)}
+	}
+	pvTag := func(v value) (string, value) {
+		st, ok := v.(structure)
+		if !ok || len(st) != 4 {
+			return "", nil
+		}
+		t, _ := st[1].(unsafePtr)
+		p, _ := st[2].(unsafePtr)
+		tag, _ := t.v.(string)
+		return tag, p.v
+	}
+	m["google.golang.org/protobuf/reflect/protoreflect.ValueOfString"] = func(e *Engine, fr *frame, a []value) value {
+		return pv(e, "string", a[0])
+	}
+	m["google.golang.org/protobuf/reflect/protoreflect.ValueOfBytes"] = func(e *Engine, fr *frame, a []value) value {
+		return pv(e, "bytes", a[0])
+	}
+	m["(google.golang.org/protobuf/reflect/protoreflect.Value).String"] = func(e *Engine, fr *frame, a []value) value {
+		tag, p := pvTag(a[0])
+		if tag != "string" {
+			e.unsupported("protoreflect.Value.String on a non-string value")
+		}
+		return p
+	}
+	m["(google.golang.org/protobuf/reflect/protoreflect.Value).Bytes"] = func(e *Engine, fr *frame, a []value) value {
+		tag, p := pvTag(a[0])
+		if tag != "bytes" {
+			e.goPanic("protoreflect: value is not bytes")
+		}
+		return p
+	}
+	m["(google.golang.org/protobuf/reflect/protoreflect.Value).IsValid"] = func(e *Engine, fr *frame, a []value) value {
+		tag, _ := pvTag(a[0])
+		return e.ts.Bool(tag != "")
+	}
+
 	// ---- time ----
 	m["time.Now"] = func(e *Engine, fr *frame, a []value) value {
 		// wall=0 (no monotonic), ext = seconds since year 1, loc=nil (UTC)
